@@ -7,11 +7,58 @@ AssertionFailed are not.  TLC evaluates the reference on generated, fully
 annotated programs into which the generator injects mistakes of every kind.
 Binding: the real checker (hook `frontend`) judges each program; a program it
 accepts without errors must not fail with a type-related kind -- neither in
-the reference nor, confirmed on the same program, in the real interpreter."""
+the reference nor, confirmed on the same program, in the real interpreter.
+A second family is judged on the implementation alone: values of the typed
+expression pool of C14 / C15 flow through an if, a list literal or a match
+into an annotated parameter; an accepted program must not end in a type error."""
 from common import Check, batch, vacuity
 import refactor as rf
 
 TYPE_RELATED = {"TypeError", "Arity", "ExpectedFunction", "MethodError", "NoCase", "NoSuchVariable", "NotBound", "NoField"}
+
+
+TYPE_ERROR_TEXT = ("Expected `", "No such variable", "has no method", "No methods defined", "does not have a field", "Incorrect type for field",
+                   "requires", "takes", "No case in this `match`", "is not a function")
+
+
+def inference_shapes(ck, tier, rnd):
+    """Programs in which what reaches an annotated parameter was inferred from several sources: the branches
+    of an if, the items of a list literal, the arms of a match (pairs of the typed expressions of c14.POOL).
+    If the checker accepts the program, the run must not end in a type error."""
+    from props import c14
+    pairs = [(a, b) for a in c14.POOL for b in c14.POOL if a is not b]
+    rnd.shuffle(pairs)
+    pairs = pairs[:110 if tier == "quick" else len(pairs)]
+    progs = []
+    for a, b in pairs:
+        head = f"enum E3 {{ A3, B3, C3 }}\nfun zuse(x: {c14.show(a[1])}): Int {{\n  1\n}}\n"
+        progs.append(("if", a, b, head + f"let zc = 1 < 2\nlet zp = if zc {{ {b[0]} }} else {{ {a[0]} }}\nprintln(string_repr(zuse(zp)))\n"))
+        progs.append(("list", a, b, head + f"for zi in [{a[0]}, {b[0]}, {a[0]}] {{\n  println(string_repr(zuse(zi)))\n}}\n"))
+        progs.append(("match", a, b, head + f"let ze = B3\nlet zm = match ze {{\n  A3 => {{ {a[0]} }}\n  B3 => {{ {b[0]} }}\n  C3 => {{ {a[0]} }}\n}}\nprintln(string_repr(zuse(zm)))\n"))
+    srcs = [x[3] for x in progs]
+    chk = batch("frontend", [{"id": i, "src": s, "format": False} for i, s in enumerate(srcs)], timeout_per=3.0)
+    runs = rf.run_all(srcs)
+    accepted = failing = 0
+    for (form, a, b, src), c, r in zip(progs, chk, runs):
+        ck.evaluated()
+        ck.validated()
+        key = f"C16 inferred through {form}: {b[0]} where {a[0]} is declared"
+        if c.get("check") != "ok" or c.get("parse") != "ok":
+            ck.fail(key, f"{key}: the checker did not finish: {c.get('check_panic') or c.get('parse_panic') or c.get('outcome')}", {"src": src})
+            continue
+        errors = [d for d in c.get("diags", []) if d.get("severity") == "Error"] + list(c.get("parse_errors") or [])
+        msg = str(r.get("message") or "")
+        type_failure = r.get("outcome") == "exception" and any(t in msg for t in TYPE_ERROR_TEXT)
+        if type_failure:
+            failing += 1
+            ck.nontrivial(key)
+        if errors:
+            continue
+        accepted += 1
+        if type_failure:
+            ck.fail(key, f"{key}: `check` reports no error, yet the run ends with: {msg[:140]}", {"cmd": "garden check p.gdn; garden run p.gdn", "src": src, "real": r})
+    vacuity(accepted > 20 and failing > 20, f"inference shapes: {accepted} accepted, {failing} fail with a type error when run")
+    return {"inference_shapes": len(progs), "accepted": accepted, "type_failures_at_run_time": failing}
 
 
 def run(tier, seed):
@@ -78,11 +125,12 @@ def run(tier, seed):
                     {"cmd": "garden check p.gdn; garden run p.gdn", "src": s, "expected": e, "real": r})
         elif e["outcome"] == "ok" and len(ck.cov["samples"]) < 2:
             ck.sample({"accepted_program_lines": s.count("\n"), "outcome": e["outcome"]})
+    shapes = inference_shapes(ck, tier, rnd)
     vacuity(accepted > 50 and typefail > 50 and len(kinds) >= 4, f"accepted {accepted}, rejected {rejected}, programs failing type-relatedly {typefail} of kinds {sorted(kinds)}")
     ck.assumptions += ["functions and lambdas of generated programs are fully annotated; local lets are not (the checker infers them)",
                        "programs the reference cannot finish within its fuel are skipped"]
     return ck.finish(rule="seeded generated programs with injected mistakes (error rate 0.35); judged: those the checker accepts without errors; non-trivial = programs that fail type-relatedly in the reference (which the checker therefore has to reject)",
-                     extra={"accepted": accepted, "rejected": rejected, "type_related_failures": typefail, "kinds": sorted(kinds)})
+                     extra=dict({"accepted": accepted, "rejected": rejected, "type_related_failures": typefail, "kinds": sorted(kinds)}, **shapes))
 
 
 def replay(rec):
